@@ -23,7 +23,7 @@ Nothing in it depends on the input being closed, nor on the type of the error. T
 import vlib, lockstep as ls
 
 STAGES = ["Map", "FMap"]
-ERROR_KINDS = ["canceled", "deadline", "deep", "elemctx"]     # besides the plain errors.New (no `ek=` key)
+ERROR_KINDS = ["canceled", "deadline", "deep", "elemctx", "eof", "value"]     # besides the plain errors.New (no `ek=` key)
 
 
 def with_kind(script, ek):
